@@ -313,6 +313,23 @@ def run(spec, out):
                     ch = compare_graphs(g, g2, lambda nin=nin: [data((2, 3)) * (j + 1) + j for j in range(nin)], out, "wrapper", wit, optimizations=opts)
                     out.count("wrapper_inlined" if ch else "wrapper_kept")
                     out.distinct_key(f"wrapper|{fname}|{nin}|{argidx}|{extra}")
+    # wrappers whose scalar argument is unsqueezed to (1, .., 1) first: reshaping turns a Python number into an array (strong dtype), so the
+    # wrapper is NOT the bare function; inputs with narrow dtypes make the difference visible in the values
+    for fname in ("add", "multiply", "subtract", "maximum"):
+        for pos in (0, 1):
+            for arr, sc in ((np.array([[200, 100, 50], [1, 2, 3]], dtype=np.uint8), 100), (np.array([[100, -100, 5], [1, 2, 3]], dtype=np.int8), 3), (np.array([[0.1, 0.2, 0.3], [1, 2, 3]], dtype=np.float32), 0.1)):
+                xa, xs_ = T(None, (2, 3)), T(None, ())
+                r = npsig.reshape(xs_, (1, 1))
+                args = [xa, r] if pos == 1 else [r, xa]
+                try:
+                    g = tracer.Graph([xa, xs_] if pos == 1 else [xs_, xa], P.call(getattr(npmod, fname), args), name="op")
+                    g2 = tracer.optimize(g, opts)
+                except Exception:  # noqa
+                    out.count("wrapper_build_failed")
+                    continue
+                mk_in = (lambda arr=arr, sc=sc, pos=pos: [arr.copy(), sc] if pos == 1 else [sc, arr.copy()])
+                compare_graphs(g, g2, mk_in, out, "wrapper-unsqueezed-scalar", {"function": fname, "scalar_position": pos, "dtype": str(arr.dtype), "scalar": sc}, optimizations=opts)
+                out.distinct_key(f"wrapper-unsq|{fname}|{pos}|{arr.dtype}")
     for dep in (False, True):
         x = T(None, (2, 3))
         f = tracer.signature.python.import_("numpy", as_="np").negative if not dep else tracer.signature.python.call(tracer.signature.python.constant(lambda t: (lambda u: u * t.shape[0])), [x])
@@ -323,7 +340,7 @@ def run(spec, out):
 
 def finalize(agg, tier, seed):
     c = agg.counters
-    for k in ("pre_equals_post:captured", "pre_equals_post:transpose-pair", "pre_equals_post:reshape-pair", "pre_equals_post:mix", "optimiser_changed_graph", "fixed_point", "pre_equals_post:wrapper", "wrapper_inlined", "wrapper_kept", "wrapper_with_assert", "mix_reversed_slices"):
+    for k in ("pre_equals_post:captured", "pre_equals_post:transpose-pair", "pre_equals_post:reshape-pair", "pre_equals_post:mix", "optimiser_changed_graph", "fixed_point", "pre_equals_post:wrapper", "wrapper_inlined", "wrapper_kept", "wrapper_with_assert", "mix_reversed_slices", "pre_equals_post:wrapper-unsqueezed-scalar"):
         if c.get(k, 0) < (50 if "wrapper_" not in k else 5):
             agg.inconclusive.append(f"monitor counter {k} = {c.get(k, 0)}")
     maxrank = 4 if tier == "quick" else 5
